@@ -53,6 +53,24 @@ theorem view_refines_batched_partial (cfg : Cfg) (hv : cfg.valid = true) (acts :
       (runB (Srv.init cfg) ⟨Bot.init cfg.botNick cfg.botIdent, []⟩ none acts).2.2 :=
   runB_inv acts _ _ _ ⟨wf_init cfg hv, coupled_init cfg hv, fun _ h => by cases h⟩ hok
 
+/-- on seeing its own JOIN the bot sends `MODE <chan>`, `MODE <chan> +b` and `WHO <chan> %tuhnairf,1`, which the
+server queues, in that order, as the queries it will answer (`serve`) -/
+theorem bot_queries_on_join {s : Srv} {b : Bot} (hw : SrvWF s) (hc : Coupled s b) {ub : SUser}
+    (hub : aget s.users s.botKey = some ub) (name : Str) (hcomma : ',' ∉ name) :
+    (b.out ⟨ub.mask, "JOIN".toList, joinArgs s.cfg name⟩).filterMap reqOf = [Req.mode name, Req.bans name, Req.who name] := by
+  have huo := hw.uok hub
+  have hbn : NickOK b.nick := by rw [hc.nick]; exact hw.botNickOK
+  have hne : ub.mask ≠ b.nick := mask_ne_nick hbn
+  have hown : ub.nick = b.nick := by rw [hc.nick]; exact hw.bot_user hub
+  obtain ⟨rest, hargs⟩ := joinArgs_cons s.cfg name
+  have htag : b.tagRaises ⟨ub.mask, "JOIN".toList, name :: rest⟩ = false := tagOK_of_ok hc.isup _
+  have hns : "JOIN".toList ∉ Gen.nickSetters := setters_out_ok _ (by decide)
+  unfold Bot.out
+  simp only [htag, Bool.false_eq_true, ↓reduceIte, hne, hns, cmdOf_JOIN, hargs, msg_nick_user huo, hown]
+  simp only [joinRequests, splitChar_single hcomma, List.map_cons, List.map_nil, List.cons_append, List.nil_append]
+  have h1 : ("MODE".toList = "WHO".toList) = False := by decide
+  simp [reqOf, h1]
+
 /-- one more step from any reachable pair of states (the inductive step, usable on its own) -/
 theorem view_step (s : Srv) (b : Bot) (hw : SrvWF s) (hc : Coupled s b) (a : Act) (ha : a.ok) :
     SrvWF (s.step a).1 ∧ Coupled (s.step a).1 (b.recvAll (s.step a).2) :=
